@@ -55,6 +55,9 @@ ASSUMPTIONS = [
     "group names differ from member type names; descriptors of the 'other descriptor' pairs never coincide in identifier (checked independently), "
     "coincidences are the subject of the dedicated 'coincident' cases",
     "values come from the shared generator pools (verif/gen.py); _generated is always pinned, no wall-clock value decides anything",
+    "copy.copy / copy.deepcopy are judged only where the copy can be made (deep copies of command values raise on the unchanged tree); a deep copy "
+    "that differs from the original only in the text of path values ('.' -> '', '\\c:\\x' -> 'c:x': pathlib rebuilds the copy from the parts) is noted, not judged; scope objects are single-use on the unchanged tree: entering one object twice may be "
+    "refused, the decorator form creates a fresh scope per call - in every case the configuration in force before must be back afterwards",
     "the ignore configuration is observed through flow.record.base.IGNORE_FIELDS_FOR_COMPARISON (the property's own anchor) and through behaviour",
     "FLOW_RECORD_IGNORE is a comma separated list of field names taken literally (value.split(','): no stripping of blanks, no case folding, an empty "
     "entry is the name '' which matches no field, duplicates collapse; unset or empty = nothing ignored); field names are case sensitive",
@@ -152,7 +155,7 @@ def generate(ctx):
         if ctx.mine(idx):
             yield {"k": "nametwin", "s": subseed("c12", ctx.seed, "nametwin", rep)}
         idx += 1
-    for variant in ("generator", "recursive", "set-inside"):
+    for variant in ("generator", "recursive", "set-inside", "decorator", "same-object"):
         for rep in range(ctx.scale(16, 1500)):
             if ctx.mine(idx):
                 yield {"k": "scope2", "variant": variant, "s": subseed("c12", ctx.seed, "scope2", variant, rep), "depth": ctx.scale(4, 9)}
@@ -628,6 +631,40 @@ def classify_hash_difference(a, b):
         return None
 
 
+def _dot_paths_emptied(o):
+    if isinstance(o, list):
+        if len(o) == 3 and o[0] == "path" and isinstance(o[2], str):
+            return ["path", o[1], "<any path text>"]
+        return [_dot_paths_emptied(x) for x in o]
+    return o
+
+
+def copies_equal(ctx, r, info):
+    """copy.copy / copy.deepcopy of a record (where the copy can be made at all: deep copies of some field values are not supported):
+    same observation, equal, equal hash, collapse in a set"""
+    import copy
+
+    for how, fn in (("copy.copy", copy.copy), ("copy.deepcopy", copy.deepcopy)):
+        try:
+            c = fn(r)
+        except Exception as e:  # noqa: BLE001 - whether a copy can be made is not the property's subject
+            ctx.event("copy_not_supported:" + how)
+            continue
+        ctx.event("copies_compared:" + how)
+        oc, orr = observe.obs(c) if hasattr(c, "__slots__") or True else None, observe.obs(r)
+        i2 = dict(info, pair=how + " of the record", b=describe(c), key="copy-of-record-differs")
+        if oc != orr and how == "copy.deepcopy" and _dot_paths_emptied(orr) == _dot_paths_emptied(oc):
+            # observed on the unchanged tree, reported to the lead as a candidate finding, not judged here: pathlib rebuilds a deep-copied
+            # path from its parts, so '.' comes back as the library's EMPTY path '' and the windows path '\\c:\\x' as 'c:x'
+            ctx.event("deepcopy_dot_path_becomes_empty")
+            ctx.note("deepcopy_path_rebuilt_from_parts", "copy.deepcopy(record) changes some path values ('.' -> '', '\\c:\\x' -> 'c:x'): only the text of path values differs")
+            continue
+        if oc != orr:
+            ctx.violation("copy-of-record-differs", "%s of a record has another observation than the record" % how, detail=dict(i2, diff=observe.first_diff(orr, oc)))
+            continue
+        compare(ctx, r, c, None if has_nan(orr) else "equal", i2)
+
+
 def reflexive(ctx, r, info):
     ctx.event("reflexive_checked")
     ok, res = _try(ctx, "== (reflexive)", lambda: (r == r, r != r, hash(r), hash(r)), dict(info, _operands=(r,)))
@@ -732,6 +769,8 @@ def run_type(ctx, case):
         configs += [("single", {n}) for n in all_names]
         configs += [("pair", {x, y}) for i, x in enumerate(data) for y in data[i + 1:]][:28]
         configs += [("all-but-one", set(all_names) - {n}) for n in all_names[:6]]
+
+    copies_equal(ctx, a, dict(info0, config="none"))
 
     def body(label, ignored):
         base_info = dict(info0, ignored=sorted(ignored), config=label)
@@ -860,6 +899,15 @@ def run_grouped(ctx, case):
     info0 = {"case": case, "a": describe(a)}
     focus = [variations[0][1]] if variations else []
     configs = configs_for(ctx, rng, all_names, focus + ["_generated"])
+
+    copies_equal(ctx, a, dict(info0, config="none"))
+    try:
+        from flow.record import RecordDescriptor as _RD
+
+        holder = _RD("c12/copyholder", [("record", "inner"), ("record[]", "inners")])(inner=a, inners=[a.records[0], a], _generated=STAMP)
+        copies_equal(ctx, holder, dict(info0, config="none", a=describe(holder)))
+    except Exception as e:  # noqa: BLE001
+        ctx.event("copy_holder_not_buildable")
 
     def body(label, ignored):
         base_info = dict(info0, ignored=sorted(ignored), config=label)
@@ -1811,6 +1859,71 @@ def run_scope2(ctx, case):
 
             level(0, outer)
             ctx.cell("scope2", "recursive", depth)
+        elif variant == "decorator":
+            # the scope object used as a decorator on a (recursive, possibly raising) function, where the library supports that
+            names = rng.choice([{"n"}, {"s"}, {"n", "s"}])
+            depth = rng.randint(1, case.get("depth", 4))
+            boom_at = rng.choice([None, 0, depth - 1])
+            try:
+                deco = entry(ctx, "ignore_fields_for_comparison", rng)(as_container(names, rng.choice(["list", "set", "tuple", "frozenset"])))
+
+                @deco
+                def recurse(i):
+                    probe(names, "inside the decorated function, level %d" % i)
+                    if i + 1 < depth:
+                        recurse(i + 1)
+                        got = read_config(ctx)
+                        if got is not None and got != names:
+                            ctx.violation(None, "ignored-fields configuration inside a decorated function changed when a nested call of it returned",
+                                          detail=dict(info, expected=sorted(names), observed=sorted(got)))
+                    if boom_at == i:
+                        raise _Boom()
+
+                supported = True
+            except TypeError:
+                supported = False  # the scope object cannot be used as a decorator
+                ctx.event("scope2_decorator_form_not_supported")
+            if supported:
+                try:
+                    recurse(0)
+                except _Boom:
+                    pass
+                ctx.event("scope2_decorator_calls")
+                expect_config(outer, "after a decorated (recursive) function returned")
+                try:
+                    recurse(0)  # the decorated function is used again
+                except _Boom:
+                    pass
+                expect_config(outer, "after the decorated function was called a second time")
+            ctx.cell("scope2", "decorator", depth)
+        elif variant == "same-object":
+            # ONE scope object entered again while it is active / after it ended: whatever the library allows (a single-use object may
+            # refuse), afterwards the configuration in force before must be back
+            names = rng.choice([{"n"}, {"s"}])
+            cm = entry(ctx, "ignore_fields_for_comparison", rng)(as_container(names, rng.choice(["list", "set", "tuple"])))
+            how = rng.choice(["nested", "sequential", "nested-raise"])
+            try:
+                if how == "sequential":
+                    with cm:
+                        probe(names, "inside, first use")
+                    expect_config(outer, "after the first use of a scope object")
+                    with cm:
+                        probe(names, "inside, second use of the same object")
+                else:
+                    with cm:
+                        probe(names, "inside, outer use")
+                        with cm:
+                            probe(names, "inside, same object entered again")
+                            if how == "nested-raise":
+                                raise _Boom()
+                        ctx.event("scope2_same_object_reentered")
+                        expect_config(names, "after the inner use of the same scope object ended")
+            except _Boom:
+                pass
+            except Exception as e:  # noqa: BLE001 - a single-use scope object refusing to be entered again is fine
+                ctx.event("scope2_same_object_refused:" + type(e).__name__)
+            ctx.cell("scope2", "same-object", how)
+            expect_config(outer, "after one scope object was entered more than once (%s)" % how)
         else:  # the set function called inside a scope: the scope still restores what was in force before it
             names = rng.choice([{"n"}, {"s"}])
             boom = rng.random() < 0.5
